@@ -20,6 +20,7 @@ import (
 	_ "verif/props/c16"
 	_ "verif/props/c17"
 	_ "verif/props/c18"
+	_ "verif/props/c19"
 )
 
 func main() { mcx.Main() }
